@@ -3,7 +3,8 @@ import AioslskVerif.Proofs.FileXfer
 # C04 — COMPLETE means the whole file arrived intact; resuming never corrupts it
 
 Property theorems only (model: `Model/FileXfer.lean`, helpers: `Proofs/FileXfer.lean`).
-The model is the code AFTER `fixes/C04-zero-remaining.patch` and `fixes/C04-offset-send-failure.patch`.
+The model is the code AFTER `fixes/C04-zero-remaining.patch`, `fixes/C04-offset-send-failure.patch`,
+`fixes/C04-upload-eof-wait-read-error.patch` and `fixes/C04-upload-failed-undelivered.patch`.
 
 `F` is the remote file, `pre` what the local file holds before the first modelled attempt (a prefix of `F`
 left by an earlier session, usually `[]`), `ops` ANY sequence of attempts / deliveries / cuts:
@@ -240,16 +241,18 @@ theorem C04_progress_measure (F pre : Bytes) (ops : List Op) (hpre : pre <+: F)
 
 /-- **Progress (upload).** For every offset within the file, once the downloader's offset is in, enough
 fault-free `send_file` iterations followed by the peer's close end in COMPLETE (also for offset = size:
-nothing is sent, the upload completes when the downloader closes). -/
+nothing is sent, the upload completes when the downloader closes). (`hq`: the task of an earlier, failed attempt is
+not still busy telling the downloader — `manage_transfers` starts no second task beside it.) -/
 theorem C04_progress_upload (F : Bytes) (ops : List UOp) (off n : Nat) (lim : Bool)
     (hb : (urun F (Ul.init F) ops).st = .queued ∨ (urun F (Ul.init F) ops).st = .failed ∨
           (urun F (Ul.init F) ops).st = .complete)
+    (hq : (urun F (Ul.init F) ops).notifying = false)
     (hoff : off ≤ F.length) (hn : F.length - off + chunkOf lim ≤ n * chunkOf lim) :
     (urun F (urun F (Ul.init F) ops) (.begin off lim :: List.replicate n .chunk ++ [.closed])).st = .complete := by
   have hi := uinv_run F ops _ (uinv_init F)
-  generalize urun F (Ul.init F) ops = u at hb hi
+  generalize urun F (Ul.init F) ops = u at hb hq hi
   have hbeg : ustep F u (.begin off lim) = ubegin u off lim := by
-    simp only [ustep]; rw [if_pos hb]
+    simp only [ustep]; rw [if_pos ⟨hb, hq⟩]
   have hrun : urun F u (.begin off lim :: List.replicate n .chunk ++ [.closed]) =
       ustep F (urun F (ustep F u (.begin off lim)) (List.replicate n .chunk)) .closed := by
     simp only [urun, List.cons_append, List.foldl_cons, List.foldl_append, List.foldl_nil]
@@ -262,6 +265,100 @@ theorem C04_progress_upload (F : Bytes) (ops : List UOp) (off n : Nat) (lim : Bo
   simp only [ustep, g1, if_true]
   rw [if_pos]
   rw [g2, g3, hfs, hbt, hpos]; omega
+
+/-! ## The hand-shake values on the wire
+
+Numbers are unbounded in the model, on the wire the ticket has 4 bytes and the offset 8. The widths the RECEIVERS use
+(`Generated/XferWire.lean`) are regenerated from the code on every run; these theorems hold for 4/4 and 8/8 only. -/
+
+/-- **The offset survives the wire, for every size a local file can have** (below 2^64, in particular beyond 4 GiB):
+what `receive_transfer_offset` returns is the number `_initialize_download` sent, it takes exactly the 8 bytes from the
+stream (whatever follows stays), and with fewer than 8 bytes delivered it keeps waiting (any segmentation). -/
+theorem C04_wire_offset_exact (off : Nat) (rest : Bytes) (h : off < 2 ^ 64) :
+    Wire.recvOffset (Wire.sendOffset off ++ rest) = some (off, rest) ∧
+    ∀ s : Bytes, s.length < 8 → Wire.recvOffset s = none := by
+  -- what the code says now (regenerated): all 8 bytes are taken from the stream, all 8 make up the number
+  have hr : AioslskVerif.Generated.XferWire.offsetReadBytes = 8 := by decide
+  have hd : AioslskVerif.Generated.XferWire.offsetDecodeBytes = 8 := by decide
+  unfold Wire.recvOffset
+  rw [hr, hd]
+  exact ⟨Wire.recvValue_send 8 off rest (by omega), fun s hs => Wire.recvValue_wait 8 8 s hs⟩
+
+/-- … and the ticket (below 2^32: `uint32(ticket).serialize()` raises for more). -/
+theorem C04_wire_ticket_exact (t : Nat) (rest : Bytes) (h : t < 2 ^ 32) :
+    Wire.recvTicket (Wire.sendTicket t ++ rest) = some (t, rest) ∧
+    ∀ s : Bytes, s.length < 4 → Wire.recvTicket s = none := by
+  have hr : AioslskVerif.Generated.XferWire.ticketReadBytes = 4 := by decide
+  have hd : AioslskVerif.Generated.XferWire.ticketDecodeBytes = 4 := by decide
+  unfold Wire.recvTicket
+  rw [hr, hd]
+  exact ⟨Wire.recvValue_send 4 t rest (by omega), fun s hs => Wire.recvValue_wait 4 4 s hs⟩
+
+/-- **All 8 bytes are needed**: a receiver that takes the 8 bytes but makes its number of fewer of them (a helper
+shared with the 4-byte ticket …) gets `offset mod 256^d` — for every such `d` there is an offset a real file can
+have that arrives as another number (d = 4: every resume at or beyond 4 GiB). -/
+theorem C04_wire_offset_all_bytes_needed (d : Nat) (hd : d < 8) :
+    (∀ off rest, Wire.recvValue 8 d (Wire.sendOffset off ++ rest) = some (off % 256 ^ d, rest)) ∧
+    ∃ off, off < 2 ^ 64 ∧ Wire.recvValue 8 d (Wire.sendOffset off) ≠ some (off, []) := by
+  refine ⟨fun off rest => Wire.recvValue_narrow 8 d off rest (by omega), 256 ^ d, ?_, ?_⟩
+  · calc 256 ^ d ≤ 256 ^ 7 := Nat.pow_le_pow_right (by omega) (by omega)
+      _ < 2 ^ 64 := by decide
+  · have h := Wire.recvValue_narrow 8 d (256 ^ d) [] (by omega)
+    rw [List.append_nil] at h
+    show Wire.recvValue 8 d (Wire.leBytes 8 (256 ^ d)) ≠ some (256 ^ d, [])
+    rw [h, Nat.mod_self]
+    intro hc
+    have hp : 0 < 256 ^ d := Nat.pow_pos (by omega)
+    simp only [Option.some.injEq, Prod.mk.injEq, and_true] at hc
+    omega
+
+/-- **Resume offset, end to end.** In every state in which an attempt can start, with a local file of any size below
+2^64: the 8 bytes the downloader writes are read by the uploader as exactly the size of the local file, and that is
+where the uploader seeks to (`bytes_transfered = offset`, `handle.seek(offset)`) — by `C04_upload_complete` what it then
+sends to completion is `F` from there on, by `C04_resume_offset` exactly what the downloader is missing. -/
+theorem C04_resume_offset_wire (d : Dl) (a : Nat) (lim : Bool) (hb : canBegin d = true)
+    (hlt : d.loc.length < 2 ^ 64) (F : Bytes) (u : Ul) (ulim : Bool)
+    (hu : (u.st = .queued ∨ u.st = .failed ∨ u.st = .complete) ∧ u.notifying = false) :
+    ∃ off, Wire.recvOffset (Wire.sendOffset (step d (.begin a lim)).offset) = some (off, []) ∧
+      off = d.loc.length ∧
+      (ustep F u (.begin off ulim)).offset = d.loc.length ∧ (ustep F u (.begin off ulim)).pos = d.loc.length ∧
+      (ustep F u (.begin off ulim)).st = .sending := by
+  have ho := (C04_resume_offset_any_counter d a lim hb).1
+  refine ⟨d.loc.length, ?_, rfl, ?_⟩
+  · rw [ho]
+    have := (C04_wire_offset_exact d.loc.length [] hlt).1
+    rwa [List.append_nil] at this
+  · simp only [ustep]; rw [if_pos hu]; exact ⟨rfl, rfl, rfl⟩
+
+/-! ## A failed upload and what the downloader is told -/
+
+/-- **FAILED first, then the message**: in every history of attempts, faults, re-requests and notification outcomes —
+while `PeerUploadFailed` is being sent (it may take long: a new peer connection; it may fail) the upload has already
+left UPLOADING (it is FAILED, or QUEUED again because the downloader re-requested it meanwhile), and an upload that is
+sending / waiting for the close has no notification under way. So a re-request that arrives during the send is not
+ignored, and an exception out of the send cannot leave the upload UPLOADING. -/
+theorem C04_upload_failed_before_told (F : Bytes) (ops : List UOp) :
+    ((urun F (Ul.init F) ops).notifying = true →
+      (urun F (Ul.init F) ops).st = .failed ∨ (urun F (Ul.init F) ops).st = .queued) ∧
+    ((urun F (Ul.init F) ops).st = .sending ∨ (urun F (Ul.init F) ops).st = .awaitEof →
+      (urun F (Ul.init F) ops).notifying = false) :=
+  let h := ninv_run F ops _ (ninv_init F)
+  ⟨h.off, h.run⟩
+
+/-- **What a network error does to a running upload**, whatever becomes of the message: a write error while sending and
+a read error while waiting for the close give FAILED at once; when the message got out the upload stays FAILED and one
+more `PeerUploadFailed` is on its way; when it could not be sent (no connection / the write failed) the upload is
+QUEUED again — never COMPLETE, never left UPLOADING. -/
+theorem C04_upload_fault_outcome (F : Bytes) (u : Ul) :
+    (u.st = .sending → (ustep F u .werr).st = .failed ∧ (ustep F u .werr).notifying = true) ∧
+    (u.st = .awaitEof → (ustep F u .rerr).st = .failed ∧ (ustep F u .rerr).notifying = true) ∧
+    (u.notifying = true → u.st = .failed →
+      (ustep F u .told).st = .failed ∧ (ustep F u .told).puf = u.puf + 1 ∧ (ustep F u .told).notifying = false ∧
+      (ustep F u .untold).st = .queued ∧ (ustep F u .untold).puf = u.puf ∧ (ustep F u .untold).notifying = false) := by
+  refine ⟨fun h => ?_, fun h => ?_, fun hn hf => ?_⟩
+  · simp [ustep, h]
+  · simp [ustep, h]
+  · simp [ustep, hn, hf]
 
 /-! ## The retry control plane (`FileXfer.Ctl`): "once faults stop, the pair finishes without user action"
 
@@ -280,12 +377,15 @@ orderly way; if its re-queue request overtakes that close the uploader ignores t
 end of a complete upload — the protocol has no message that repairs this (remark in the report). -/
 
 /-- **No re-queue request is lost.** In every state the pair can reach — any interleaving of management cycles,
-message deliveries (FIFO per direction), hand-shake failures, resets learnt by either end first, user actions —: a
+message deliveries (FIFO per direction), hand-shake failures, resets learnt by either end first, control writes that
+fail (`PeerUploadFailed` that cannot be delivered, a queue request or a reply that cannot be written), user actions —: a
 download that is waiting for the uploader (`remotely_queued`, QUEUED or INCOMPLETE) is right to wait: the uploader
 holds its request (QUEUED / being initialized / uploading) or will once the messages on their way to it have
 arrived, or a `PeerUploadFailed` that ends the waiting is on its way; and a running download never has the flag.
 (Before fixes/C04-upload-eof-wait-read-error.patch `uLearn` in the EOF wait ended COMPLETE without a message: the
-invariant failed and the pair stayed INCOMPLETE / COMPLETE for ever — the witness case of `props/c04.py`.) -/
+invariant failed and the pair stayed INCOMPLETE / COMPLETE for ever — the witness case of `props/c04.py`. Before
+fixes/C04-upload-failed-undelivered.patch `uLearnMute` left the upload FAILED with nothing in flight: the invariant
+failed in the same way — second witness case.) -/
 theorem C04_pair_no_requeue_lost (ops : List Ctl.Op) :
     Ctl.invB (Ctl.run Ctl.S.init ops) = true ∧
     (Ctl.retryable (Ctl.run Ctl.S.init ops).d = true → (Ctl.run Ctl.S.init ops).rq = true →
@@ -306,6 +406,15 @@ theorem C04_pair_progress_partial (ops : List Ctl.Op)
     Ctl.quiescent (Ctl.run (Ctl.run Ctl.S.init ops) Ctl.round) = true :=
   Ctl.round_completes _ (Ctl.inv_run ops _ ((Ctl.invB_iff _).mp Ctl.inv_init)) hq hr
 
+/-- **Every way the uploader can learn of a break leaves the downloader a way forward**: `PeerUploadFailed` is on its
+way (the upload FAILED: a re-request re-queues it), or — it could not be delivered — the upload is back in the queue
+and will be offered again. -/
+theorem C04_pair_upload_fault_way_forward (s : Ctl.S) (h : s.u = .uploading ∨ s.u = .eofWait) :
+    (Ctl.step s .uLearn).u = .failed ∧ Ctl.ToD.puf ∈ (Ctl.step s .uLearn).toD ∧
+    Ctl.uHolds (Ctl.step s .uLearnMute).u = true ∧ (Ctl.step s .uLearnMute).toD = s.toD := by
+  simp only [Ctl.step, h, if_true]
+  simp [Ctl.uHolds]
+
 /-! the witness schedule: all bytes written, the reset reaches the downloader first, its re-queue request is
 ignored by the uploader that still waits for the close; then the uploader learns of the reset — FAILED +
 PeerUploadFailed, the flag is cleared, the next round finishes the transfer -/
@@ -321,6 +430,36 @@ example : Ctl.quiescent (Ctl.run Ctl.S.init [.dCycle, .uRecv, .uCycle, .dRecv, .
       .dLearn, .dCycle, .uRecv, .uLearn, .dRecv]) = true ∧
     Ctl.retryable (Ctl.run Ctl.S.init [.dCycle, .uRecv, .uCycle, .dRecv, .uRecv, .fUp, .uWroteAll,
       .dLearn, .dCycle, .uRecv, .uLearn, .dRecv]).d = true := by decide
+
+/-! the second witness schedule: as above, but `PeerUploadFailed` cannot be delivered (the peer connection broke
+together with the file connection): the upload is QUEUED again, the state is quiescent, one round finishes -/
+example : (Ctl.run Ctl.S.init [.dCycle, .uRecv, .uCycle, .dRecv, .uRecv, .fUp,
+      .dLearn, .dCycle, .uRecv, .uLearnMute]).d = .incomplete ∧
+    (Ctl.run Ctl.S.init [.dCycle, .uRecv, .uCycle, .dRecv, .uRecv, .fUp,
+      .dLearn, .dCycle, .uRecv, .uLearnMute]).rq = true ∧
+    (Ctl.run Ctl.S.init [.dCycle, .uRecv, .uCycle, .dRecv, .uRecv, .fUp,
+      .dLearn, .dCycle, .uRecv, .uLearnMute]).u = .queued ∧
+    Ctl.quiescent (Ctl.run Ctl.S.init [.dCycle, .uRecv, .uCycle, .dRecv, .uRecv, .fUp,
+      .dLearn, .dCycle, .uRecv, .uLearnMute]) = true := by decide
+/-! a reply that cannot be written, a queue request that cannot be written -/
+example : (Ctl.run Ctl.S.init [.dCycle, .uRecv, .uCycle, .dRecvFail]).d = .queued ∧
+    (Ctl.run Ctl.S.init [.dCycle, .uRecv, .uCycle, .dRecvFail]).rq = false ∧
+    (Ctl.run Ctl.S.init [.dCycle, .uRecv, .uCycle, .dRecvFail]).u = .initializing ∧
+    (Ctl.run Ctl.S.init [.dCycle, .uRecv, .uCycle, .dRecv, .uRecv, .fUp, .dLearn, .dCycleFail]).d = .queued := by decide
+/-! the wire: a resume at 4 GiB + 5 arrives as it was sent; read as a 4-byte number it would arrive as 5 -/
+example : Wire.recvOffset (Wire.sendOffset (2 ^ 32 + 5)) = some (2 ^ 32 + 5, []) := by
+  have h := (C04_wire_offset_exact (2 ^ 32 + 5) [] (by omega)).1
+  rwa [List.append_nil] at h
+example : Wire.recvValue 8 4 (Wire.sendOffset (2 ^ 32 + 5)) = some (5, []) := by
+  have h := (C04_wire_offset_all_bytes_needed 4 (by omega)).1 (2 ^ 32 + 5) []
+  rwa [List.append_nil] at h
+/-! a write error, the message cannot be sent, the downloader asks again, the next attempt -/
+example : (urun [1, 2, 3] (Ul.init [1, 2, 3]) [.begin 0 true, .werr]).st = .failed ∧
+    (urun [1, 2, 3] (Ul.init [1, 2, 3]) [.begin 0 true, .werr, .untold]).st = .queued ∧
+    (urun [1, 2, 3] (Ul.init [1, 2, 3]) [.begin 0 true, .werr, .requeue, .untold]).st = .queued ∧
+    (urun [1, 2, 3] (Ul.init [1, 2, 3]) [.begin 0 true, .werr, .told]).puf = 1 ∧
+    (urun [1, 2, 3] (Ul.init [1, 2, 3]) [.begin 0 true, .werr, .untold, .begin 0 true, .chunk, .chunk, .closed]).st
+      = .complete := by decide
 
 /-! Non-vacuity: the hypotheses are met by non-trivial reachable histories (a 5-byte file, a cut after 2
 bytes, a resumed attempt; a dishonest sender; an upload resumed at offset 2). -/
